@@ -88,6 +88,14 @@ impl SyncNotSend {
     }
 }
 
+/// `Sync` but not `Send`, and `Copy` (so that it may be declared as allowed to stay uninitialised).
+#[derive(Clone, Copy)]
+pub struct SyncNotSendCopy {
+    pub v: u32,
+    _not_send: PhantomData<*const ()>,
+}
+unsafe impl Sync for SyncNotSendCopy {}
+
 /// Control: `Send + Sync`.
 #[derive(Clone)]
 pub struct ArcCounter(pub std::sync::Arc<std::sync::atomic::AtomicUsize>);
